@@ -1,5 +1,279 @@
-"""R-C10.3 placeholder until the abstract evaluation of _parse_constant is wired in."""
+"""R-C10.3 / R-C06.1 - constant typing: finite abstract evaluation of CParser._parse_constant.
+
+_parse_constant observes its token only through tok.type, membership of the last
+few characters of tok.value in constant tuples, and passes tok.value through.
+The tokeniser model (E2) gives, per literal class, the exact set of possible
+"last three characters" windows (projected on the letters the function tests).
+The function is evaluated on every (class, window) pair of that finite
+abstraction: reached `raise` statements are escapes, returned type strings are
+compared with the reference typing.
+"""
+from __future__ import annotations
+
+import ast
+from collections import deque
+
+from .. import lexmodel as LM
+from .. import rxmodel as R
+from .. import srcmodel as S
+from ..core import AnalysisError
+
+WINDOW = 3
+
+INT_TYPES = {"": "int", "u": "unsigned int", "l": "long int", "ul": "unsigned long int", "lu": "unsigned long int",
+             "ll": "long long int", "ull": "unsigned long long int", "llu": "unsigned long long int"}
+
+
+def observed_letters(fn):
+    """Single-character string constants the function compares characters with."""
+    out = set()
+    for n in ast.walk(fn):
+        if isinstance(n, ast.Constant) and isinstance(n.value, str) and len(n.value) == 1:
+            out.add(n.value)
+    return out
+
+
+def windows(T: LM.TokAutomaton, m: LM.LexModel, K, letters):
+    """Exact set of abstract windows (tuples over letters + '.') of the last <=3 characters of full-length K tokens."""
+    a = m.alpha
+    sym_letter = {}
+    for s in range(a.n):
+        sym_letter[s] = "."
+    for ch in letters:
+        sym_letter[a.of_char(ch)] = ch
+    out = set()
+    seen = {(0, ())}
+    dq = deque(seen)
+    while dq:
+        i, w = dq.popleft()
+        o = T.outcome[i]
+        if o["kind"] == "regex" and o["label"] == K and o["full"]:
+            out.add(w)
+        for s in range(a.n):
+            j = T.trans[(i, s)]
+            w2 = (w + (sym_letter[s],))[-WINDOW:]
+            if (j, w2) not in seen:
+                seen.add((j, w2))
+                dq.append((j, w2))
+    return out
+
+
+class Escape(Exception):
+    def __init__(self, node):
+        self.node = node
+
+
+class Evaluator:
+    """Evaluates the statement subset used by _parse_constant on one abstract token."""
+
+    def __init__(self, fn, tables, tok_type, window):
+        self.fn, self.tables = fn, tables
+        self.env = {}
+        self.tok_type = tok_type
+        # a representative spelling whose last characters realise the window ('.' = a character none of the tests mention)
+        self.value = "0" * 5 + "".join("7" if c == "." else c for c in window)
+        self.result = None
+
+    def run(self):
+        tokname = None
+        try:
+            self.block(self.fn.body)
+        except StopIteration:
+            pass
+        return self.result
+
+    def block(self, body):
+        for st in body:
+            self.stmt(st)
+
+    def stmt(self, st):
+        if isinstance(st, ast.Expr):
+            if isinstance(st.value, ast.Constant):
+                return
+            v = self.ev(st.value)
+            if isinstance(v, tuple) and v and v[0] == "ERROR-CHANNEL":
+                self.result = ("error-channel",)
+                raise StopIteration
+            return
+        if isinstance(st, ast.Assign):
+            v = self.ev(st.value)
+            for t in st.targets:
+                if isinstance(t, ast.Name):
+                    self.env[t.id] = v
+                else:
+                    raise AnalysisError(f"_parse_constant: unsupported assignment target at line {st.lineno}")
+            return
+        if isinstance(st, ast.AugAssign) and isinstance(st.target, ast.Name):
+            cur = self.env[st.target.id]
+            v = self.ev(st.value)
+            self.env[st.target.id] = cur + v if isinstance(st.op, ast.Add) else cur - v if isinstance(st.op, ast.Sub) else cur * v
+            return
+        if isinstance(st, ast.If):
+            if self.truth(st.test):
+                self.block(st.body)
+            else:
+                self.block(st.orelse)
+            return
+        if isinstance(st, ast.For) and isinstance(st.target, ast.Name):
+            for x in self.ev(st.iter):
+                self.env[st.target.id] = x
+                self.block(st.body)
+            return
+        if isinstance(st, ast.Raise):
+            raise Escape(st)
+        if isinstance(st, ast.Return):
+            self.result = ("return", self.ev(st.value) if st.value is not None else None)
+            raise StopIteration
+        if isinstance(st, ast.Pass):
+            return
+        raise AnalysisError(f"_parse_constant: statement {type(st).__name__} at line {st.lineno} is outside the evaluated subset")
+
+    def truth(self, e):
+        return bool(self.ev(e))
+
+    def ev(self, e):
+        if isinstance(e, ast.Constant):
+            return e.value
+        if isinstance(e, ast.Name):
+            if e.id in self.env:
+                return self.env[e.id]
+            if e.id in self.tables:
+                return self.tables[e.id]
+            raise AnalysisError(f"_parse_constant: unknown name {e.id}")
+        if isinstance(e, ast.Tuple):
+            return tuple(self.ev(x) for x in e.elts)
+        if isinstance(e, ast.Attribute):
+            base = e.value
+            if isinstance(base, ast.Name) and self.env.get(base.id) == ("TOKEN",):
+                if e.attr == "type":
+                    return self.tok_type
+                if e.attr == "value":
+                    return self.value
+                return ("TOKFIELD", e.attr)
+            raise AnalysisError(f"_parse_constant: attribute {S.unparse(e)} outside the evaluated subset")
+        if isinstance(e, ast.Subscript):
+            v = self.ev(e.value)
+            if isinstance(e.slice, ast.Slice):
+                lo = self.ev(e.slice.lower) if e.slice.lower else None
+                hi = self.ev(e.slice.upper) if e.slice.upper else None
+                if v is self.value and not (hi is None and isinstance(lo, int) and -WINDOW <= lo < 0):
+                    raise AnalysisError("_parse_constant looks at more of the spelling than its last three characters: window abstraction too small")
+                return v[lo:hi]
+            i = self.ev(e.slice)
+            if v is self.value and not (isinstance(i, int) and -WINDOW <= i < 0):
+                raise AnalysisError("_parse_constant indexes the spelling outside its last three characters")
+            return v[i]
+        if isinstance(e, ast.Compare):
+            left = self.ev(e.left)
+            for op, c in zip(e.ops, e.comparators):
+                right = self.ev(c)
+                r = {ast.In: lambda a, b: a in b, ast.NotIn: lambda a, b: a not in b, ast.Eq: lambda a, b: a == b, ast.NotEq: lambda a, b: a != b,
+                     ast.Gt: lambda a, b: a > b, ast.GtE: lambda a, b: a >= b, ast.Lt: lambda a, b: a < b, ast.LtE: lambda a, b: a <= b}.get(type(op))
+                if r is None:
+                    raise AnalysisError("_parse_constant: comparison outside the evaluated subset")
+                if not r(left, right):
+                    return False
+                left = right
+            return True
+        if isinstance(e, ast.BoolOp):
+            if isinstance(e.op, ast.And):
+                return all(self.truth(x) for x in e.values)
+            return any(self.truth(x) for x in e.values)
+        if isinstance(e, ast.UnaryOp) and isinstance(e.op, ast.Not):
+            return not self.truth(e.operand)
+        if isinstance(e, ast.UnaryOp) and isinstance(e.op, ast.USub):
+            return -self.ev(e.operand)
+        if isinstance(e, ast.BinOp):
+            a, b = self.ev(e.left), self.ev(e.right)
+            if isinstance(e.op, ast.Add):
+                return a + b
+            if isinstance(e.op, ast.Mult):
+                return a * b
+            raise AnalysisError("_parse_constant: operator outside the evaluated subset")
+        if isinstance(e, ast.Call):
+            f = e.func
+            if isinstance(f, ast.Attribute) and isinstance(f.value, ast.Name) and f.value.id == "self":
+                if f.attr == "_advance":
+                    return ("TOKEN",)
+                if f.attr == "_tok_coord":
+                    return ("COORD",)
+                if f.attr == "_parse_error":
+                    return ("ERROR-CHANNEL",)
+            if isinstance(f, ast.Attribute) and isinstance(f.value, ast.Name) and f.value.id == "c_ast":
+                return ("NODE", f.attr, tuple(self.ev(a) for a in e.args), {k.arg: self.ev(k.value) for k in e.keywords})
+            if isinstance(f, ast.Name) and f.id == "len":
+                return len(self.ev(e.args[0]))
+            raise AnalysisError(f"_parse_constant: call {S.unparse(f)} outside the evaluated subset")
+        raise AnalysisError(f"_parse_constant: expression {type(e).__name__} outside the evaluated subset")
+
+
+def reference_type(K, window):
+    if K.startswith("INT_CONST_") and K != "INT_CONST_CHAR":
+        suf = "".join(c.lower() for c in window if c in "uUlL")
+        # only trailing letters count: the window is the tail of digits+suffix, letters can only be the suffix
+        return INT_TYPES.get(suf)
+    if K == "INT_CONST_CHAR":
+        return "int"
+    if K in ("FLOAT_CONST", "HEX_FLOAT_CONST"):
+        last = window[-1] if window else "."
+        return "float" if last in "fF" else "long double" if last in "lL" else "double"
+    if K.endswith("CHAR_CONST"):
+        return "char"
+    return None
+
+
+def analyse(m, T):
+    """Returns (results, escapes): results[(K, window)] = type string or ('error-channel',) ; escapes = [(K, window, raise node)]"""
+    px = S.module("c_parser")
+    fn = px.method("CParser", "_parse_constant")
+    letters = observed_letters(fn)
+    if not letters <= set("uUlLfF"):
+        # the function tests other characters: extend the projection
+        pass
+    tables = {k: v for k, v in m.t.parser_sets.items()}
+    classes = sorted(set().union(*(m.t.parser_sets.get(n, set()) for n in ("_INT_CONST", "_FLOAT_CONST", "_CHAR_CONST"))))
+    results, escapes = {}, []
+    for K in classes:
+        if not any(n == K for n, _, _ in m.rules):
+            continue
+        for w in sorted(windows(T, m, K, letters | set("uUlLfF"))):
+            ev = Evaluator(fn, tables, K, w)
+            try:
+                r = ev.run()
+            except Escape as esc:
+                escapes.append((K, w, esc.node))
+                continue
+            results[(K, w)] = r
+    return fn, results, escapes
 
 
 def check_typing(ctx, m, T):
-    return
+    px = S.module("c_parser")
+    fn, results, escapes = analyse(m, T)
+    for K, w, node in escapes:
+        ctx.oblige("R-C10.3", f"{K} window {''.join(w)} escapes", False)
+    seen = set()
+    for K, w, node in escapes:
+        if (K, node.lineno) in seen:
+            continue
+        seen.add((K, node.lineno))
+        ctx.violation("R-C10.3", f"typing-raise:{K}:{S.unparse(node.exc)[:40] if node.exc else ''}",
+                      f"_parse_constant raises {S.unparse(node.exc)[:60] if node.exc else 'an exception'} for a {K} token ending in {''.join(w)!r}, a spelling the lexer does produce",
+                      file=px.rel, function="CParser._parse_constant", line=node.lineno, construct=S.unparse(node))
+    for (K, w), r in sorted(results.items()):
+        want = reference_type(K, w)
+        if r is None or r[0] != "return" or not (isinstance(r[1], tuple) and r[1][0] == "NODE"):
+            ok = False
+            got = r
+        else:
+            _, cname, args, kw = r[1]
+            got = args[0] if args else kw.get("type")
+            spelling_ok = (len(args) > 1 and isinstance(args[1], str) and args[1].endswith("".join("7" if c == "." else c for c in w)))
+            ok = cname == "Constant" and got == want and spelling_ok
+        ctx.oblige("R-C10.3", f"{K} ...{''.join(w)}", ok, nontrivial=bool(set(w) - {"."}),
+                   sample={"rule": "R-C10.3", "class": K, "last characters": "".join(w), "type": got, "expected": want} if (not ok or (set(w) - {"."} and ctx.obligations % 9 == 0)) else None)
+        if not ok:
+            ctx.violation("R-C10.3", f"typing:{K}:{''.join(w)}", f"a {K} constant ending in {''.join(w)!r} gets type {got!r}, the C rules give {want!r} (or its spelling is not kept unchanged)",
+                          file=px.rel, function="CParser._parse_constant", line=fn.lineno)
+    ctx.require_instances("R-C10.3", 20)
+    ctx.info["typing_windows"] = len(results) + len(escapes)
